@@ -96,6 +96,18 @@ def run(ctx):
                 except Exception as ex: e['raised'] = type(ex).__name__
                 seq.append(e)
             traces.append(dict(ev=seq)); ctx.mark(('duplex', b, r, rep))
+    # one long-lived object called at several rates (larger, then smaller, then the configured one): per-call r applies to that call only
+    from crysp.keccak import Keccak
+    for b, r0, rs in ((1600, 1088, (1344, None, 1027, 1024, None)), (200, 72, (136, None, 40, None)), (25, 11, (20, 3, None, 24, None))) + (((800, 544, (700, None, 100, None)),) if big else ()):
+        h = Keccak(b=b, r=r0, len=64 if b > 25 else 13); seq = []
+        for j, rr in enumerate(rs):
+            M = msg(rnd, 8 * (3 + 7 * j), 0, 0)
+            e = dict(op='call', b=b, r=rr or r0, d=64 if b > 25 else 13, nist=True, m=B(M), bitlen=-1, raised='', obs=[])
+            try:
+                out = h(M, None, rr) if rr else h(M); e['obs'] = B(out)
+            except Exception as ex: e['raised'] = type(ex).__name__
+            seq.append(e)
+        traces.append(dict(ev=seq)); ctx.mark(('rates', b, str(rs)))
     ctx.evaluations = sum(len(t['ev']) for t in traces)
     ctx.sample(traces[0]['ev'][0]); ctx.sample(traces[-1]['ev'][:2])
     CH = 1500
